@@ -108,6 +108,14 @@ def lacks(ctx, f, node, ch, env_lacks, depth=0):
             return False
     if isinstance(node, ast.BinOp) and isinstance(node.op, ast.Add):
         return rec(node.left) and rec(node.right)
+    if isinstance(node, (ast.ListComp, ast.GeneratorExp)):      # a list lacks ch when each of its elements does
+        e2 = dict(env_lacks)
+        for g in node.generators:
+            if isinstance(g.target, ast.Name):
+                e2[g.target.id] = _iter_elem_lacks(ctx, f, g.iter, ch, env_lacks, depth)
+        return lacks(ctx, f, node.elt, ch, e2, depth + 1)
+    if isinstance(node, (ast.List, ast.Tuple)):
+        return all(rec(e) for e in node.elts)
     if isinstance(node, ast.JoinedStr):
         return all((ch not in v.value) if isinstance(v, ast.Constant) else rec(v.value) for v in node.values)
     if isinstance(node, ast.IfExp):
